@@ -66,6 +66,7 @@ structure Opts where
   nested : Bool               -- NestedGraph (HierarchicalGraphMachine) or Graph
   showConds : Bool
   showAttrs : Bool
+  modelAttr : Nat := 0        -- `machine.model_attribute` (0 = 'state', the default)
   deriving DecidableEq, Repr, Inhabited
 
 /-! ### abstract diagram -/
@@ -164,6 +165,35 @@ def applyStep : Styles → Step → Styles
 /-- styles of a model's graph after its history (the graph is created with `regen init`) -/
 def stylesAfter (init : List Path) (h : List Step) : Styles :=
   h.foldl applyStep (({} : Styles).setNodes init 1)
+
+/-! ### the model object: the state is read from the configured attribute -/
+
+/-- the attributes of a model object that hold (or look like) a state value: attribute name ↦ the
+names of its value (`_get_state_names`); models may carry unrelated attributes, e.g. an own `state`
+while the machine keeps its state in `status` -/
+abbrev Obj := List (Nat × List Path)
+
+/-- `getattr(model, machine.model_attribute)`; a missing attribute styles nothing (AttributeError is
+swallowed by `_get_graph`) -/
+def readState (attr : Nat) : Obj → List Path
+  | [] => []
+  | (a, v) :: r => if a = attr then v else readState attr r
+
+/-- graph events as the code sees them: it holds the model object, not a state value -/
+inductive ObjStep
+  | begin (pre src dst : Path)
+  | finish (m : Obj)      -- `set_node_style(getattr(event_data.model, machine.model_attribute), "active")`
+  | regen (m : Obj)       -- `_get_graph(force_new=True)`: `set_node_style(getattr(model, self.model_attribute), "active")`
+  deriving DecidableEq, Repr, Inhabited
+
+def ObjStep.resolve (attr : Nat) : ObjStep → Step
+  | .begin pre src dst => .begin pre src dst
+  | .finish m => .finish (readState attr m)
+  | .regen m => .regen (readState attr m)
+
+/-- styles after an object-level history of a model registered as the object `init` -/
+def stylesAfterObj (o : Opts) (init : Obj) (h : List ObjStep) : Styles :=
+  stylesAfter (readState o.modelAttr init) (h.map (ObjStep.resolve o.modelAttr))
 
 /-! ### `_get_elements` -/
 
@@ -307,6 +337,10 @@ def diagram (o : Opts) (m : Mach) (st : Styles) (roi : Option (List Path)) : Dia
       rootInit := match m.initial with
         | some i => if cur == [i] then some i else none
         | none => none }
+
+/-- `_get_graph(model, show_roi)`: the ROI state is read from the configured attribute as well -/
+def diagramObj (o : Opts) (m : Mach) (init : Obj) (h : List ObjStep) (roi : Option Obj) : Diagram :=
+  diagram o m (stylesAfterObj o init h) (roi.map (readState o.modelAttr))
 
 /-! ### observations on diagrams (used by the property statements) -/
 
